@@ -16,7 +16,7 @@
                   The field is redundant: the payload is Data, so model, specification and verdict are
                   those of reg_access3 -- an implementation that goes by the field reads bytes beyond
                   the payload, refuses a valid payload or panics, and is judged accordingly.
-     reg_seq      [vis; spare; start; dflt; [[code; addr; p1; p2]; ...]]
+     reg_seq      [vis; spare; start; dflt; [[code; addr; p1; p2]; ...]]   (code 24 = WithByteOrder(p1))
                   the calls in order on ONE Registers, then each call on a fresh copy:
                   [[outcomes shared]; [outcomes fresh]; buffer after]
    dflt = -1: default order untouched, otherwise WithByteOrder(dflt) is called first.
@@ -130,26 +130,51 @@ Definition run_reg_access3r (a : list val) : val :=
   end.
 
 (* ---------- reg_seq ---------- *)
-Fixpoint calls_of (l : list val) : option (list call) :=
+(* an element of the sequence is a read [code; addr; p1; p2] (codes 1..23) or the re-configuration
+   WithByteOrder(bo), written [24; 0; bo; 0]; the outcome of the latter is [0] (it returned the
+   object it was called on) *)
+Fixpoint ops_of (l : list val) : option (list op) :=
   match l with
   | [] => Some []
   | VL [VI code; VI addr; VI p1; VI p2] :: t =>
-      match accessor_of_code (zN code) (zN p1) (zN p2), calls_of t with
-      | Some a, Some cs => Some ((a, zN addr) :: cs)
-      | _, _ => None
+      match ops_of t with
+      | Some os =>
+          if zN code =? 24 then Some (OpOrder (zN p1) :: os) else
+          match accessor_of_code (zN code) (zN p1) (zN p2) with
+          | Some a => Some (OpRead a (zN addr) :: os)
+          | None => None
+          end
+      | None => None
       end
   | _ => None
+  end.
+(* the outcomes of the reads put back at their places in the sequence *)
+Fixpoint weave (os : list op) (xs : list val) : list val :=
+  match os with
+  | [] => []
+  | OpOrder _ :: rest => v_ok [] :: weave rest xs
+  | OpRead _ _ :: rest => match xs with x :: xs' => x :: weave rest xs' | [] => [v_bad] end
+  end.
+(* each element on a fresh copy [r0] of the object as constructed: WithByteOrder(the last order set
+   before it in the sequence, if any), then the read *)
+Fixpoint fresh_vals (r0 : registers) (cur : option N) (os : list op) : list val :=
+  match os with
+  | [] => []
+  | OpOrder bo :: rest => v_ok [] :: fresh_vals r0 (Some bo) rest
+  | OpRead a addr :: rest =>
+      let r := match cur with Some bo => with_byte_order r0 bo | None => r0 end in
+      proj_outcome (fst (access r a addr)) :: fresh_vals r0 cur rest
   end.
 Definition run_reg_seq (a : list val) : val :=
   match a with
   | [VB v; VB s; VI start; VI dflt; VL cl] =>
-      match calls_of cl with
-      | Some cs =>
+      match ops_of cl with
+      | Some os =>
           match make_registers v s (zN start) dflt with
           | Ok r =>
-              let '(xs, r') := run_calls r cs in
-              VL [VL (map proj_outcome xs);
-                  VL (map (fun c => proj_outcome (fst (access r (fst c) (snd c)))) cs);
+              let '(xs, r') := run_ops r os in
+              VL [VL (weave os (map proj_outcome xs));
+                  VL (fresh_vals r None os);
                   VB (buffer (r_data r'))]
           | Err _ => VL [out_new_refused]
           | Panic => VL [v_panic]
@@ -164,14 +189,16 @@ Definition run_reg_seq (a : list val) : val :=
 Definition library_default : N := 9.
 Definition dflt_order (dflt : Z) : N := if (dflt <? 0)%Z then library_default else zN dflt.
 
-(* C04: what the specification prescribes as outcome *)
-Definition spec_outcome (v : list N) (start : N) (dflt : Z) (a : accessor) (addr : N) : val :=
+(* C04: what the specification prescribes as outcome, for an object whose default order is [o] *)
+Definition spec_outcome_order (v : list N) (start : N) (o : N) (a : accessor) (addr : N) : val :=
   if spec_payload_ok v then
-    match spec_access v start (dflt_order dflt) a addr with
+    match spec_access v start o a addr with
     | Some x => v_ok [proj_aval x]
     | None => out_access_err
     end
   else out_new_refused.
+Definition spec_outcome (v : list N) (start : N) (dflt : Z) (a : accessor) (addr : N) : val :=
+  spec_outcome_order v start (dflt_order dflt) a addr.
 
 Definition verdict_reg_new (p : N) (a : list val) (out : val) : N :=
   if p =? 4 then
@@ -213,10 +240,15 @@ Definition verdict_reg_access3r (p : N) (a : list val) (out : val) : N :=
   | _ => if (p =? 4) || (p =? 13) then VIOLATES else NOT_JUDGED
   end.
 
-Fixpoint all_spec (v : list N) (start : N) (dflt : Z) (cs : list call) (outs : list val) : bool :=
-  match cs, outs with
+(* every read of the sequence returns what the specification prescribes under the order in force:
+   the one set by the last WithByteOrder before it (any value, 0 included: the value is stored as
+   it is), else the one the object was constructed with *)
+Fixpoint all_spec (v : list N) (start : N) (o : N) (os : list op) (outs : list val) : bool :=
+  match os, outs with
   | [], [] => true
-  | (a, addr) :: cs', o :: outs' => val_eqb o (spec_outcome v start dflt a addr) && all_spec v start dflt cs' outs'
+  | OpOrder bo :: os', out :: outs' => val_eqb out (v_ok []) && all_spec v start bo os' outs'
+  | OpRead a addr :: os', out :: outs' =>
+      val_eqb out (spec_outcome_order v start o a addr) && all_spec v start o os' outs'
   | _, _ => false
   end.
 
@@ -224,13 +256,13 @@ Definition verdict_reg_seq (p : N) (a : list val) (out : val) : N :=
   match a, out with
   | [VB v; VB s; VI start; VI dflt; VL cl], VL [VL shared; VL fresh; VB after] =>
       if p =? 13 then
-        (* every call on the shared object returns what it returns on a fresh copy, and the
-           buffer is unchanged at the end *)
+        (* every call on the shared object returns what it returns on a fresh copy (configured with
+           the last order set before the call), and the buffer is unchanged at the end *)
         if val_eqb (VL shared) (VL fresh) && list_eqb after (v ++ s) && (length shared =? length cl)%nat
         then HOLDS else VIOLATES
       else if p =? 4 then
-        match calls_of cl with
-        | Some cs => if all_spec v (zN start) dflt cs shared then HOLDS else VIOLATES
+        match ops_of cl with
+        | Some os => if all_spec v (zN start) (dflt_order dflt) os shared then HOLDS else VIOLATES
         | None => NOT_JUDGED
         end
       else NOT_JUDGED
